@@ -31,7 +31,7 @@ var c10Projects = map[string]*project{
 		Types: map[string]string{"@base": "{\n\t\"base\": true\n}", "@tag": `"t1" // {regex: "t\\d"}`, "@node": "{\n\t\"v\": 1.5, // {precision: 1}\n\t\"next\": @node // {optional: true}\n}"},
 		Enums: map[string]string{"@kinds": `["x", "y"]`}},
 	// every rule kind the converter handles, incl. or rule-sets with format types, enum, const, nullable
-	"S6": {Root: "{\n\t\"when\": \"2021-01-02T07:23:12+03:00\", // {or: [{type: \"datetime\"}, {type: \"integer\", min: 0}]}\n\t\"mail\": \"a@b.cc\", // {or: [\"email\", \"@tag\"]}\n\t\"day\": \"2021-01-02\", // {type: \"date\", nullable: true}\n\t\"pick\": 2, // {enum: [1, 2, \"x\"]}\n\t\"fixed\": \"c\", // {const: true}\n\t\"price\": 1.25, // {precision: 2, min: 0, exclusiveMinimum: true}\n\t\"code\": \"ab\", // {regex: \"^a\", minLength: 1, maxLength: 3}\n\t\"list\": [ // {minItems: 1, maxItems: 3}\n\t\t@tag\n\t],\n\t\"any\": 1, // {type: \"any\"}\n\t\"free\": {} // {additionalProperties: \"string\"}\n}",
+	"S6": {Root: "{\n\t\"when\": \"2021-01-02T07:23:12+03:00\", // {or: [{type: \"datetime\"}, {type: \"integer\", min: 0}]}\n\t\"mail\": \"a@b.cc\", // {or: [\"email\", \"@tag\"]}\n\t\"day\": \"2021-01-02\", // {type: \"date\", nullable: true}\n\t\"pick\": 2, // {enum: [1, 2, \"x\"]}\n\t\"fixed\": \"c\", // {const: true}\n\t\"price\": 1.25, // {precision: 2, min: 0, exclusiveMinimum: true}\n\t\"code\": \"ab\", // {regex: \"^a\", minLength: 1, maxLength: 3}\n\t\"list\": [ // {minItems: 1, maxItems: 3}\n\t\t@tag\n\t],\n\t\"any\": 1, // {type: \"any\"}\n\t\"free\": {}, // {additionalProperties: \"string\"}\n\t\"open\": { // {additionalProperties: \"array\"}\n\t\t@tag: 1\n\t},\n\t\"nul\": { // {additionalProperties: \"null\"}\n\t\t\"k\": 1,\n\t\t@tag: 2\n\t}\n}",
 		Types: map[string]string{"@tag": `"t1" // {regex: "t\\d"}`}},
 	// shallow valid
 	"S2": {Root: "[\n\t1,\n\t\"two\",\n\t{\n\t\t\"three\": null\n\t}\n]"},
